@@ -4,8 +4,9 @@
    the only thing assumed about it is what NumPy guarantees: permutation(m) is a permutation of 0..m-1,
    random_sample lies in [0,1)). *)
 From Coq Require Import ZArith QArith List Arith Bool Lia Permutation.
-From BCT Require Import Base.Mat Base.ListX Model.Generators Proofs.GeneratorsBase Proofs.Generators
-  Proofs.GeneratorsRing Proofs.GeneratorsDeg Proofs.GeneratorsTemplate.
+From BCT Require Import Base.Mat Base.ListX Base.SumQ Model.Generators Model.GeneratorsExt Proofs.GeneratorsBase
+  Proofs.Generators Proofs.GeneratorsRing Proofs.GeneratorsDeg Proofs.GeneratorsTemplate Proofs.GeneratorsProfile
+  Proofs.GeneratorsDomain Proofs.GeneratorsRepair Proofs.GeneratorsLive.
 Import ListNotations.
 Open Scope Z_scope.
 
@@ -149,6 +150,132 @@ Theorem C20_degfixed_rowcol : forall inv outv rp stream R,
   (forall c, (c < n)%nat -> sumn (fun r => R r c) n = Z.of_nat (nth c inv O)).
 Proof. exact degfixed_rowcol. Qed.
 
+(* ---------------- maketoeplitzCIJ with its profile (reference.py:857-859) inside the model ---------------- *)
+(* template = toeplitz((0, pf(1), pf(2), ...)) * q for ANY profile pf (scipy's norm.pdf is a numeric kernel) and ANY
+   scale q: zero diagonal, symmetric, constant along diagonals, non-negative for non-negative pf and q *)
+Theorem C20_toeplitz_template_shape : forall pf q,
+  let T := toep_template pf q in
+  (forall i, (T i i == 0)%Q) /\
+  (forall i j, T i j = T j i) /\
+  (forall i j i' j', absdiff i j = absdiff i' j' -> T i j = T i' j') /\
+  ((forall d, (0 <= pf d)%Q) -> (0 <= q)%Q -> forall i j, (0 <= T i j)%Q) /\
+  (forall i j, i <> j -> (T i j == pf (absdiff i j) * q)%Q).
+Proof. exact toep_template_shape. Qed.
+
+(* with q = K / np.sum(template) (exact arithmetic) the template sums to K *)
+Theorem C20_toeplitz_template_sum : forall n k pf,
+  ~ (sum2Q (toep_unscaled pf) n == 0)%Q ->
+  (sum2Q (toep_template pf (toep_scale n k pf)) n == inject_Z k)%Q.
+Proof. exact toep_template_sum. Qed.
+
+(* C20_toeplitz_exact_K with its diagonal hypothesis discharged: for every profile, scale, K (any sign) and stream of
+   samples >= 0, a run that returns has exactly K ones, is 0/1 and has an empty diagonal *)
+Theorem C20_toeplitz_profile_exact_K : forall n k pf q stream R itr,
+  Forall nonneg_sample stream ->
+  maketoeplitz n k pf q stream = TDone R itr ->
+  sum2 R n = k /\
+  (forall i j, (i < n)%nat -> (j < n)%nat -> R i j = 0 \/ R i j = 1) /\
+  (forall i, (i < n)%nat -> R i i = 0).
+Proof. exact toeplitz_profile_exact_K. Qed.
+
+(* the matrix returned is the FIRST sample with exactly K ones (or the zero matrix when K = 0), after itr <= 10000 draws *)
+Theorem C20_toeplitz_first_accepted : forall n k pf q stream R itr,
+  maketoeplitz n k pf q stream = TDone R itr ->
+  let T := toep_template pf q in
+  0 <= itr <= 10000 /\ Z.of_nat (Z.to_nat itr) <= Z.of_nat (length stream) /\
+  R = tstate n T zeros stream (Z.to_nat itr) /\
+  (forall t, (t < Z.to_nat itr)%nat -> sum2 (tstate n T zeros stream t) n <> k).
+Proof. exact toeplitz_first_accepted. Qed.
+
+(* BCTParamError only after exactly 10001 draws, with K <> 0 and every one of the first 10000 samples rejected *)
+Theorem C20_toeplitz_raise_justified : forall n k pf q stream itr,
+  maketoeplitz n k pf q stream = TRaised itr ->
+  let T := toep_template pf q in
+  itr = 10001 /\ 10001 <= Z.of_nat (length stream) /\ k <> 0 /\
+  (forall t, Z.of_nat t < 10000 -> sum2 (sample_lt n (nth t stream qzero) T) n <> k).
+Proof. exact toeplitz_raise_justified. Qed.
+
+(* the premise of C20_toeplitz_profile_exact_K is satisfiable for every K between the number of template cells >= 1
+   (connected by every sample, samples being < 1) and the number of positive template cells: there is a sample with
+   values in [0,1) that the loop accepts at its first pass (existence only, no probability) *)
+Theorem C20_toeplitz_feasible_stream : forall n k pf q,
+  let T := toep_template pf q in
+  (length (forced n T) <= k <= length (forced n T) + length (midc n T))%nat ->
+  exists X R itr, (forall i j, (0 <= X i j /\ X i j < 1)%Q) /\
+    maketoeplitz n (Z.of_nat k) pf q [X] = TDone R itr /\ sum2 R n = Z.of_nat k.
+Proof. exact maketoeplitz_feasible_stream. Qed.
+
+(* ---------------- border of the documented domain ---------------- *)
+(* makeevenCIJ: "exactly K connections" is FALSE for a K below the number of cluster cells (N=4, K=1, sz_cl=1 gives the
+   4 cluster cells).  The docstring documents it ("A warning is generated if all modules contain more edges than K"):
+   a documented limitation of the routine, not a defect; the positive statement is C20_even_clusters_only *)
+Theorem C20_even_exact_K_refuted :
+  exists n k sz rp R, even n k sz rp = Some R /\ (1 <= sz <= Z.of_nat (Nat.log2 n)) /\
+    (Z.of_nat k <= Z.of_nat n * Z.of_nat n - Z.of_nat n) /\ sum2 R (2 ^ Nat.log2 n) <> Z.of_nat k.
+Proof. exact even_exact_K_refuted. Qed.
+
+(* signed K (Python int): CIJ.flat[ix[rp][:k]] — a negative K silently yields N^2-N-|K| (2*(N(N-1)/2-|K|)) connections *)
+Theorem C20_makerand_signed_K : forall n k rp,
+  (Permutation rp (seq 0 (length (offdiag n))) ->
+   let C := makerand_dir_z n k rp in
+   let N := Z.of_nat n * Z.of_nat n - Z.of_nat n in
+   (forall i j, C i j = 0 \/ C i j = 1) /\ (forall i, C i i = 0) /\
+   (0 <= k -> sum2 C n = Z.min k N) /\
+   (k < 0 -> sum2 C n = Z.max 0 (N + k))) /\
+  (Permutation rp (seq 0 (length (upper n))) ->
+   let C := makerand_und_z n k rp in
+   let U := Z.of_nat (length (upper n)) in
+   (forall i j, C i j = C j i) /\ (forall i j, C i j = 0 \/ C i j = 1) /\ (forall i, C i i = 0) /\
+   (0 <= k -> sum2 C n = 2 * Z.min k U) /\
+   (k < 0 -> sum2 C n = 2 * Z.max 0 (U + k))).
+Proof. exact makerand_signed_K. Qed.
+
+Theorem C20_even_signed_K : forall n sz rp,
+  (forall k : nat, even n k sz rp = even_z n (Z.of_nat k) sz rp) /\
+  (forall k R, k < 0 -> even_z n k sz rp = Some R ->
+     forall i j, R i j = tab 0 (2 ^ Nat.log2 n) (2 ^ Nat.log2 n) (even_clusters (Nat.log2 n) sz) i j).
+Proof. exact even_signed_K. Qed.
+
+Theorem C20_ring_negative_K : forall n k rp,
+  (k < 0 -> ringlattice_z n k rp = None) /\
+  (0 <= k -> ringlattice_z n k rp = ringlattice n (Z.to_nat k) rp).
+Proof. exact ring_negative_K. Qed.
+
+(* the feasibility hypothesis of C20_ringlattice_bands cannot be dropped: N=4, K=13 > 12 returns a matrix with an entry 2
+   and 6 connections (outside the documented domain: "all feasible K") *)
+Theorem C20_ringlattice_infeasible_K_refuted :
+  exists n k rp R, (n * n - n < k)%nat /\ Permutation rp (seq 0 8) /\ ringlattice n k rp = Some R /\
+    sum2 R n <> Z.of_nat k /\ exists i j, (i < n)%nat /\ (j < n)%nat /\ R i j = 2.
+Proof. exact ring_infeasible_K_refuted. Qed.
+
+(* ---------------- makerandCIJdegreesfixed: BCTParamError means that no admissible switch existed ---------------- *)
+(* in a state of the loop (invariant: CIJ = I + multiplicities of the placed edges, entries <= 1) edge i hits an occupied
+   cell and EVERY stub s < k is refused (CIJ[e0 i, e1 s] or CIJ[e0 s, e1 i] occupied) *)
+Theorem C20_degfixed_raise_justified : forall n k e0 e1i,
+  (forall t, (t < k)%nat -> (e0 t < n)%nat) ->
+  forall stream,
+  (forall t, (t < k)%nat -> (e1i t < n)%nat) ->
+  place k n k 0 e0 eye e1i stream = Raised ->
+  exists i C e1, (i < k)%nat /\ Inv n k e0 e1i i C e1 /\ C (e0 i) (e1 i) <> 0 /\
+    forall s, (s < k)%nat -> C (e0 i) (e1 s) <> 0 \/ C (e0 s) (e1 i) <> 0.
+Proof. exact degfixed_raise_justified. Qed.
+
+(* for the routine itself, any inv / outv / permutation / draws *)
+Theorem C20_degfixed_raised : forall inv outv rp stream,
+  degfixed inv outv rp stream = Raised ->
+  let n := length inv in
+  let k := fold_right Nat.add O inv in
+  let e0 := of_list O (stubs n outv k) in
+  exists (i : nat) (C : mat Z) (e1 : vec nat), (i < k)%nat /\ C (e0 i) (e1 i) <> 0 /\
+    forall s, (s < k)%nat -> C (e0 i) (e1 s) <> 0 \/ C (e0 s) (e1 i) <> 0.
+Proof. exact degfixed_raised. Qed.
+
+(* conversely: while some stub is admissible the repair loop never raises, whatever the draws *)
+Theorem C20_degfixed_repair_not_raised : forall n k i e0 CIJ e1 stream s,
+  (s < k)%nat -> CIJ (e0 i) (e1 s) = 0 -> CIJ (e0 s) (e1 i) = 0 ->
+  repair n k i e0 CIJ e1 [] stream <> Raised.
+Proof. exact repair_not_raised. Qed.
+
 (* ---------------- non-vacuity ---------------- *)
 Example C20_nonvacuous_dir :
   Permutation [3; 0; 5; 1; 4; 2]%nat (seq 0 (length (offdiag 3))) /\ sum2 (makerand_dir 3 4 [3; 0; 5; 1; 4; 2]%nat) 3 = 4.
@@ -170,6 +297,43 @@ Example C20_nonvacuous_even :
   exists R, even 4 6 1 [3; 0; 1; 2; 4; 5; 6; 7]%nat = Some R /\ sum2 R 4 = 6.
 Proof. eexists. split; [reflexivity|]. vm_compute. reflexivity. Qed.
 
+Example C20_nonvacuous_und :
+  Permutation [2; 0; 1]%nat (seq 0 (length (upper 3))) /\ sum2 (makerand_und 3 2 [2; 0; 1]%nat) 3 = 4 /\
+  run_rand_und 3 2 [2; 0; 1]%nat = [[0; 1; 0]; [1; 0; 1]; [0; 1; 0]].
+Proof. split; [|split; vm_compute; reflexivity]. apply (NoDup_Permutation_bis); [repeat constructor; cbn; intuition lia| vm_compute; lia |].
+  intros x Hx. vm_compute in *. intuition lia. Qed.
+
+(* K = 1 > 0, profile (0, 1) scaled by 1/2: the first sample has two ones (rejected), the second exactly one *)
+Example C20_nonvacuous_toeplitz :
+  run_toeplitz_pf 2 1 [5; 1]%Q (1 # 2) [[[0; 1 # 4]; [1 # 4; 0]]; [[0; 1 # 4]; [3 # 4; 0]]]%Q = (O, (2, [[0; 1]; [0; 0]])) /\
+  sum2 (sample_lt 2 (qmat [[0; 1 # 4]; [1 # 4; 0]]%Q) (toep_template (qvec [5; 1]%Q) (1 # 2))) 2 = 2.
+Proof. split; vm_compute; reflexivity. Qed.
+
+Example C20_nonvacuous_fractal :
+  run_fractal 2 [1; 1 # 2; 1 # 4]%Q 1 [[1 # 2; 1 # 2; 1 # 2; 1 # 2]; [1 # 2; 1 # 2; 1 # 2; 1 # 2];
+                                        [1 # 2; 1 # 2; 1 # 2; 1 # 2]; [1 # 2; 1 # 2; 1 # 2; 1 # 2]]%Q
+  = Some ([[0; 1; 0; 0]; [1; 0; 0; 0]; [0; 0; 0; 1]; [0; 0; 1; 0]], 4).
+Proof. vm_compute. reflexivity. Qed.
+
+(* in-degrees (3,0,0) with out-degrees (1,1,1): the first edge is a self connection and every switch partner leads to
+   node 0 again: the routine raises after having tried all three stubs *)
+Example C20_nonvacuous_degfixed_raise :
+  degfixed [3; 0; 0]%nat [1; 1; 1]%nat [0; 1; 2]%nat [0; 1; 2]%nat = Raised /\
+  run_degfixed_chk [1; 1; 1]%nat [1; 1]%nat [] [] = (3%nat, []).
+Proof. split; vm_compute; reflexivity. Qed.
+
+Example C20_nonvacuous_signed_K :
+  run_rand_dir_z 3 (-2) [3; 0; 5; 1; 4; 2]%nat = [[0; 1; 1]; [0; 0; 1]; [0; 1; 0]] /\
+  run_ring_z 4 (-1) [] = None /\ run_even_z 8 (-3) 1 [] = run_even 8 0 1 [].
+Proof. repeat split; vm_compute; reflexivity. Qed.
+
+(* profile (0, 1, 1/2) scaled by 3/2 on 3 nodes: the four cells at distance 1 are >= 1 (forced), the two at distance 2 are
+   in (0,1): every K in 4..6 has a returning sample *)
+Example C20_nonvacuous_feasible_stream :
+  length (forced 3 (toep_template (qvec [0; 1; 1 # 2]%Q) (3 # 2))) = 4%nat /\
+  length (midc 3 (toep_template (qvec [0; 1; 1 # 2]%Q) (3 # 2))) = 2%nat.
+Proof. split; vm_compute; reflexivity. Qed.
+
 Print Assumptions C20_makerand_dir_count.
 Print Assumptions C20_makerand_und_sym_count.
 Print Assumptions C20_upper_cells.
@@ -184,3 +348,17 @@ Print Assumptions C20_even_clusters_blocks.
 Print Assumptions C20_fractal_clusters_blocks.
 Print Assumptions C20_degfixed_invariant.
 Print Assumptions C20_degfixed_rowcol.
+Print Assumptions C20_toeplitz_template_shape.
+Print Assumptions C20_toeplitz_template_sum.
+Print Assumptions C20_toeplitz_profile_exact_K.
+Print Assumptions C20_toeplitz_first_accepted.
+Print Assumptions C20_toeplitz_raise_justified.
+Print Assumptions C20_even_exact_K_refuted.
+Print Assumptions C20_makerand_signed_K.
+Print Assumptions C20_even_signed_K.
+Print Assumptions C20_ring_negative_K.
+Print Assumptions C20_ringlattice_infeasible_K_refuted.
+Print Assumptions C20_degfixed_raise_justified.
+Print Assumptions C20_degfixed_raised.
+Print Assumptions C20_degfixed_repair_not_raised.
+Print Assumptions C20_toeplitz_feasible_stream.
